@@ -574,6 +574,122 @@ func memoryIsolation(c *h.Check) {
 	}
 }
 
+// ---------------------------------------------------------------- schedules on MemoryStore
+
+// cinst: concurrent direct use of one MemoryStore (its lock is instrumented): appenders
+// and a reader that chains limited reads. Offsets must increase in log order whatever the
+// interleaving, and the chain must reproduce the log with no gap and no repeat.
+type cinst struct {
+	appenders, per int
+	rec            h.Rec
+	st             string
+	offs           []string
+	order          []string
+	chain          []string
+}
+
+func (ci *cinst) Body() {
+	ms := eventbus.NewMemoryStore()
+	ms.Append(bg, &eventbus.Event{Type: "t", Data: json.RawMessage(`{"n":0}`)})
+	for a := 0; a < ci.appenders; a++ {
+		a := a
+		vrt.Go(func() {
+			for i := 0; i < ci.per; i++ {
+				o, _ := ms.Append(bg, &eventbus.Event{Type: "t", Data: json.RawMessage(fmt.Sprintf(`{"n":%d}`, 10*(a+1)+i))})
+				ci.rec.Add("ack", 10*(a+1)+i, 0, string(o))
+			}
+		})
+	}
+	vrt.Go(func() {
+		cur := eventbus.OffsetOldest
+		for i := 0; i < 2; i++ {
+			evs, next, _ := ms.Read(bg, cur, 1)
+			for _, e := range evs {
+				ci.rec.Add("read", 0, 0, string(e.Offset))
+			}
+			cur = next
+		}
+	})
+	vrt.Join()
+	evs, _, _ := ms.Read(bg, eventbus.OffsetOldest, 0)
+	for _, e := range evs {
+		ci.offs = append(ci.offs, string(e.Offset))
+		ci.order = append(ci.order, string(e.Data))
+	}
+	cur := eventbus.OffsetOldest
+	for i := 0; i <= len(evs)+1; i++ {
+		page, next, _ := ms.Read(bg, cur, 2)
+		if len(page) == 0 {
+			break
+		}
+		for _, e := range page {
+			ci.chain = append(ci.chain, string(e.Offset))
+		}
+		cur = next
+	}
+}
+
+func (ci *cinst) Trace() string   { return ci.rec.String() + fmt.Sprint(ci.offs, ci.chain) }
+func (ci *cinst) Outcome() string { return ci.st + " " + fmt.Sprint(ci.order) }
+
+func (ci *cinst) Check(res *vrt.Result) []vrt.Violation {
+	ci.st = res.Status.String()
+	name := fmt.Sprintf("memory store: %d concurrent appenders x %d", ci.appenders, ci.per)
+	vs := vrt.StatusViolations(name, res)
+	if res.Status != vrt.StatusOK {
+		return vs
+	}
+	bad := func(sig string) {
+		vs = append(vs, vrt.Violation{Kind: "concurrent-append", Sig: "store=memory concurrent Append: " + sig, Detail: name + "\n" + ci.Trace()})
+	}
+	if len(ci.offs) != 1+ci.appenders*ci.per {
+		bad("appended events are missing from the log")
+	}
+	for i := 1; i < len(ci.offs); i++ {
+		if !(ci.offs[i-1] < ci.offs[i]) {
+			bad("offsets do not increase in log order")
+			break
+		}
+	}
+	if fmt.Sprint(ci.chain) != fmt.Sprint(ci.offs) {
+		bad("a chain of limited reads does not reproduce the log (gap or repeat)")
+	}
+	// every acknowledged offset is in the log exactly once
+	seen := map[string]int{}
+	for _, o := range ci.offs {
+		seen[o]++
+	}
+	for _, e := range ci.rec.Events() {
+		if e.K == "ack" && seen[e.S] != 1 {
+			bad("an offset returned by Append is not unique in the log")
+		}
+	}
+	// the concurrent reader never sees an offset twice or out of order
+	last := ""
+	for _, e := range ci.rec.Events() {
+		if e.K == "read" {
+			if e.S <= last {
+				bad("a reader chaining Read(next,1) concurrently with appends saw a repeat or went backwards")
+			}
+			last = e.S
+		}
+	}
+	return vs
+}
+
+func schedScenarios(thorough bool) []vrt.Scenario {
+	shapes := [][2]int{{2, 1}, {2, 2}}
+	if thorough {
+		shapes = append(shapes, [2]int{3, 1}, [2]int{3, 2})
+	}
+	var l []vrt.Scenario
+	for _, s := range shapes {
+		s := s
+		l = append(l, vrt.Scenario{Name: fmt.Sprintf("memory-appenders-%dx%d", s[0], s[1]), New: func() vrt.Instance { return &cinst{appenders: s[0], per: s[1]} }})
+	}
+	return l
+}
+
 // ---------------------------------------------------------------- main
 
 func kindsFor(thorough bool) []string {
@@ -630,12 +746,26 @@ func run(c *h.Check) {
 	if c.Worker == 0 {
 		memoryIsolation(c)
 	}
+	bound := 2
+	if c.Thorough() {
+		bound = 3
+	}
+	for _, sc := range schedScenarios(c.Thorough()) {
+		c.Explore(sc, bound, 300000, false)
+	}
 }
 
 func replay(c *h.Check, rf *h.ReplayFile) []vrt.Violation {
 	var vs []vrt.Violation
 	add := func(clause, sig, detail string) {
 		vs = append(vs, vrt.Violation{Kind: clause, Sig: sig, Detail: detail})
+	}
+	if rf.Scenario != "" {
+		for _, sc := range schedScenarios(true) {
+			if sc.Name == rf.Scenario {
+				return h.ReplaySchedule(sc, rf)
+			}
+		}
 	}
 	var probe map[string]any
 	json.Unmarshal(rf.Ops, &probe)
